@@ -87,14 +87,20 @@ package histutil
 //@   params upto prefix
 //@   results cmd err
 //@   ensures err == nil ==> cmd.Seq < upto
+//@   ensures err != ErrEndOfHistory
 //@ func DB.NextCmd
 //@   trusted
 //@   pure
+//@   results cmd err
+//   (the database reports a missing command with its own error value, never with the cursor's end-of-history value)
+//@   ensures err != ErrEndOfHistory
 
 // whatever the database answers (including commands added by other sessions
 // after this one started), the cursor never shows a command at or beyond upper
 // state invariant: the position is never beyond upper, and at upper the cursor reports an error (end of history)
-//@ spec fn dbwf(c *dbStoreCursor) bool = c.cmd.Seq <= c.upper && (c.cmd.Seq >= c.upper ==> !(c.err === nil))
+//   ... and it reports end of history only when it IS at one of the two ends (so that a later walk in the
+//   other direction starts from the end and skips nothing)
+//@ spec fn dbwf(c *dbStoreCursor) bool = c.cmd.Seq <= c.upper && (c.cmd.Seq >= c.upper ==> !(c.err === nil)) && (c.err == ErrEndOfHistory ==> c.cmd.Seq == c.upper || c.cmd.Seq == 0 - 1)
 //@ func dbStoreCursor.Next
 //@   props C29
 //@   requires dbwf(c)
